@@ -84,7 +84,7 @@ func (x *Exec) permute(st *State, et types.Type, arr, off, n string) (pi, rho st
 	nb := x.declare(st, "sorted", "(Array Int "+es+")")
 	B := app("select", A, arr)
 	i := x.fresh("i")
-	x.assume(st, "(forall (("+i+" Int)) (! (=> (and (<= 0 "+i+") (< "+i+" "+n+")) (and (<= 0 ("+pi+" "+i+")) (< ("+pi+" "+i+") "+n+") (= ("+rho+" ("+pi+" "+i+")) "+i+") (= (select "+nb+" (+ "+off+" "+i+")) (select "+B+" (+ "+off+" ("+pi+" "+i+")))))) :pattern (("+pi+" "+i+")) :pattern ((select "+nb+" (+ "+off+" "+i+")))))")
+	x.assume(st, "(forall (("+i+" Int)) (! (=> (and (<= 0 "+i+") (< "+i+" "+n+")) (and (<= 0 ("+pi+" "+i+")) (< ("+pi+" "+i+") "+n+") (= ("+rho+" ("+pi+" "+i+")) "+i+") (= (select "+nb+" (at "+off+" "+i+")) (select "+B+" (at "+off+" ("+pi+" "+i+")))))) :pattern (("+pi+" "+i+")) :pattern ((select "+nb+" (at "+off+" "+i+")))))")
 	x.assume(st, "(forall (("+i+" Int)) (! (=> (and (<= 0 "+i+") (< "+i+" "+n+")) (and (<= 0 ("+rho+" "+i+")) (< ("+rho+" "+i+") "+n+") (= ("+pi+" ("+rho+" "+i+")) "+i+"))) :pattern (("+rho+" "+i+"))))")
 	x.assume(st, "(forall (("+i+" Int)) (! (=> (or (< "+i+" "+off+") (>= "+i+" (+ "+off+" "+n+"))) (= (select "+nb+" "+i+") (select "+B+" "+i+"))) :pattern ((select "+nb+" "+i+"))))")
 	x.setArr(st, name, srt, app("store", A, arr, nb))
